@@ -2,6 +2,7 @@ mod abs;
 mod absworld;
 mod build;
 mod common;
+mod jsrworld;
 mod props;
 mod rng;
 mod sexp;
@@ -25,6 +26,25 @@ fn main() {
   }
   if args[1] == "c16probe" {
     props::c16::probe(&args[2]);
+    return;
+  }
+  if args[1] == "c01dump" {
+    // c01dump <seed> <k> [thorough]: the generated build case, without building it
+    let tier = if args.get(4).map(|s| s.as_str()) == Some("thorough") { Tier::Thorough } else { Tier::Quick };
+    let mut rng = rng::Rng::for_case(args[2].parse().unwrap(), args[3].parse().unwrap());
+    let c = props::c01::gen_build_case(&mut rng, tier);
+    for (k, e) in &c.world.entries {
+      match e {
+        world::Entry::Module { headers, .. } => println!("{} [final {:?}] headers {:?}\n{}", k, c.world.final_specifiers.get(k), headers, String::from_utf8_lossy(&c.world.content(k).unwrap())),
+        other => println!("{} {:?}", k, other),
+      }
+    }
+    println!("roots {:?} cfg {:?} max_redirects {}", c.roots, c.bcfg, c.max_redirects);
+    return;
+  }
+  if args[1] == "jsrdump" {
+    // jsrdump <flavour> <seed> <k>: the generated registry world, without building it
+    props::jsr::dump(&args[2], args[3].parse().unwrap(), args[4].parse().unwrap());
     return;
   }
   if args[1] == "c08probe" {
@@ -70,7 +90,11 @@ fn main() {
   }
   // keep panics inside catch_unwind quiet
   if std::env::var("DGVERIF_DEBUG").is_err() {
-    std::panic::set_hook(Box::new(|_| {}));
+    // ... but remember where they happened
+    std::panic::set_hook(Box::new(|info| {
+      let loc = info.location().map(|l| format!("{}:{}", l.file(), l.line())).unwrap_or_default();
+      common::LAST_PANIC_LOCATION.with(|c| *c.borrow_mut() = loc);
+    }));
   }
   match prop.as_str() {
     "c15" => props::c15::run(&cfg),
@@ -89,6 +113,7 @@ fn main() {
     "c07" => props::c07::run(&cfg),
     "c16" => props::c16::run(&cfg),
     "c08" => props::c08::run(&cfg),
+    "jsr" => props::jsr::run(&cfg),
     _ => {
       eprintln!("unknown property {}", prop);
       std::process::exit(2);
